@@ -1,7 +1,10 @@
 #!/bin/bash
 # Re-runs every stored seeded change against the check of the property it breaks (quick tier, scratch worktree).
+# usage: tools/seedregress.sh [k n]   — with k and n only every n-th seed, starting at the k-th (for parallel streams)
 cd /verif
+k=${1:-0}; n=${2:-1}; i=0
 for d in seeded/*/; do
+  i=$((i+1)); [ $((i % n)) -eq $k ] || continue
   id=$(basename $d); prop=$(python3 -c "import json;print(json.load(open('$d/meta.json'))['breaks_property'])")
   res=$(tools/seedcheck2.sh $PWD/$d/patch.diff $prop 2>&1 | grep "seed result" | tail -1)
   echo "$id $res"
